@@ -50,6 +50,7 @@ package runner
 //@   callsite Set
 //@     requires #C11.output-of-previous-command arg0 == "Output" && arg1 == boxstr(tostring(lastOut)) && recv == nextJob.Vars
 //@   callsite Execute
+//@     requires #C13.each-command-gets-the-callers-context arg0 == ctx0
 //@     ghost lastOut = result
 
 // ---- the pieces of (*TaskRunner).Run
